@@ -160,6 +160,27 @@ static Json::Value genC08(Rng& rng) {
              memTotal / 100, 4194304, 4194305, 3LL << 30, (3LL << 30) + 1, 0,
              1LL << 40});
       }
+      // cgroups come and go - single ones, or every watched cgroup at once.
+      // These ops precede the sample edits of the same tick, so a cgroup that
+      // reappears carries its sample value in the very tick it reappears.
+      if (t > 0 && rng.chance(0.2)) {
+        bool all = rng.chance(0.35);
+        bool rm = rng.chance(0.5);
+        for (size_t wi = 0; wi < watched.size(); wi++) {
+          if (!all && wi != (size_t)rng.below(watched.size()))
+            continue;
+          Json::Value op(Json::objectValue);
+          op["t"] = t;
+          op["op"] = rm ? "rm" : "mk";
+          if (rm)
+            op["cg"] = watched[wi];
+          else {
+            op["v"]["path"] = watched[wi];
+            op["v"]["memstat"]["pgscan"] = 1000;
+          }
+          ops.append(op);
+        }
+      }
       for (size_t i = 0; i < watched.size(); i++) {
         double f = i == 0 ? 1.0 : (i == 1 ? 0.5 : 0.25);
         Json::Value v(Json::objectValue);
@@ -197,20 +218,6 @@ static Json::Value genC08(Rng& rng) {
           op["v"] = v;
           ops.append(op);
         }
-      }
-      // cgroups come and go (never the whole set at once for pressure)
-      if (t > 0 && rng.chance(0.15) && watched.size() > 1) {
-        Json::Value op(Json::objectValue);
-        op["t"] = t;
-        std::string victim = watched[rng.range(1, (int64_t)watched.size() - 1)];
-        op["op"] = rng.chance(0.5) ? "rm" : "mk";
-        if (op["op"] == "rm")
-          op["cg"] = victim;
-        else {
-          op["v"]["path"] = victim;
-          op["v"]["memstat"]["pgscan"] = 1000;
-        }
-        ops.append(op);
       }
       if (t > 0 && type == "exists" && rng.chance(0.3)) {
         Json::Value op(Json::objectValue);
